@@ -267,6 +267,114 @@ func c19Parse(c *Ctx, parse *FuncInfo) {
 		return true
 	})
 	c.Check(n == 2, "C19-R2", "Parse:both modes start from Parse", parse.Decl.Pos(), "parseGroups and parseNode", "expected one call to parseGroups and one to parseNode, found "+itoa(n))
+	c02WholeLinesR(c, "C19-R2")
+	c19EveryDocument(c, parse, loop, decodeCall)
+}
+
+// c19EveryDocument: in relaxed mode every document of the stream reaches
+// parseNode. Inside the decode loop of Parser.Parse a `break`, `continue` or
+// `return` is allowed only under a test of the decoder's error or under strict
+// mode; anything else (an "empty document" shortcut, say) ends or skips the
+// stream early and the rules of the remaining documents are never found.
+func c19EveryDocument(c *Ctx, parse *FuncInfo, loop *ast.ForStmt, decode *ast.CallExpr) {
+	if loop == nil {
+		c.Undecided("C19-R3", "Parse:decode loop", parse.Decl.Pos(), "no for statement around Decode")
+		return
+	}
+	info := parse.Pkg.TypesInfo
+	pm := parentMap(parse.Decl.Body)
+	var errObj types.Object
+	if as, ok := pm[decode].(*ast.AssignStmt); ok && len(as.Lhs) == 1 {
+		errObj = objOf(info, as.Lhs[0])
+	}
+	if errObj == nil {
+		c.Undecided("C19-R3", "Parse:decode error variable", decode.Pos(), "Decode result is not assigned to a variable")
+		return
+	}
+	mentionsErr := func(e ast.Expr) bool {
+		found := false
+		ast.Inspect(e, func(n ast.Node) bool {
+			if id, ok := n.(*ast.Ident); ok && info.Uses[id] == errObj {
+				found = true
+			}
+			return true
+		})
+		return found
+	}
+	// strict-mode atom with polarity
+	strictTrue := func(a Atom) bool {
+		e, truth := ast.Unparen(a.E), a.Truth
+		for {
+			if u, ok := e.(*ast.UnaryExpr); ok && u.Op == token.NOT {
+				e, truth = ast.Unparen(u.X), !truth
+				continue
+			}
+			break
+		}
+		return a.Tag == nil && truth && fieldSel(info, e, "internal/parser.Parser", "isStrict")
+	}
+	var parseNodeCall *ast.CallExpr
+	ast.Inspect(loop.Body, func(n ast.Node) bool {
+		if call, ok := n.(*ast.CallExpr); ok {
+			if fn := Callee(info, call); fn != nil && funcQName(fn) == "internal/parser.Parser.parseNode" {
+				parseNodeCall = call
+			}
+		}
+		return true
+	})
+	n := 0
+	var walk func(nd ast.Node, depth int)
+	walk = func(nd ast.Node, depth int) {
+		ast.Inspect(nd, func(m ast.Node) bool {
+			if m == nd {
+				return true
+			}
+			var exit ast.Node
+			switch x := m.(type) {
+			case *ast.FuncLit:
+				return false
+			case *ast.ForStmt, *ast.RangeStmt, *ast.SwitchStmt, *ast.TypeSwitchStmt, *ast.SelectStmt:
+				_, isLoop := x.(*ast.ForStmt)
+				_, isRange := x.(*ast.RangeStmt)
+				d := depth
+				if isLoop || isRange {
+					d += 100 // break and continue inside belong to the inner loop
+				} else {
+					d++ // a plain break inside belongs to the switch, continue to our loop
+				}
+				walk(m, d)
+				return false
+			case *ast.ReturnStmt:
+				exit = x
+			case *ast.BranchStmt:
+				switch {
+				case x.Label != nil || x.Tok == token.GOTO:
+					exit = x
+				case x.Tok == token.BREAK && depth == 0:
+					exit = x
+				case x.Tok == token.CONTINUE && depth < 100:
+					if parseNodeCall == nil || x.Pos() < parseNodeCall.Pos() {
+						exit = x
+					}
+				}
+			}
+			if exit == nil {
+				return true
+			}
+			n++
+			ok := false
+			for _, g := range lexicalGuards(pm, exit, loop.Body) {
+				if (g.Tag == nil && mentionsErr(g.E)) || strictTrue(g) {
+					ok = true
+				}
+			}
+			c.Check(ok, "C19-R3", "Parse:the document loop is left only on a decoder error or in strict mode", exit.Pos(), "guarded by the decode error / strict mode",
+				"the loop over the documents of a file is left (or a document skipped) here in relaxed mode without the decoder having reported the end of the stream: the documents after this point are never parsed, so rules that strict mode finds in the same text are lost when it sits behind such a document")
+			return true
+		})
+	}
+	walk(loop.Body, 0)
+	c.Check(n >= 3, "C19-R3", "Parse:exits of the document loop enumerated", loop.Pos(), itoa(n), "fewer exits than confirmed ("+itoa(n)+")")
 }
 
 // c19LiveLines: a is `reader.<field>` itself, or a local every assignment of
@@ -385,7 +493,52 @@ func c19Descent(c *Ctx, parseNode, parseRule, tryGroup *FuncInfo) {
 		if !ok {
 			return true
 		}
-		if cl, ok := ast.Unparen(rs.X).(*ast.CallExpr); ok && len(cl.Args) == 1 && isObj(info, cl.Args[0], nodeP) {
+		// the ranged list: a call, or a local defined once from a call
+		src := ast.Unparen(rs.X)
+		if id, isID := src.(*ast.Ident); isID {
+			if o := info.Uses[id]; o != nil {
+				var defs []ast.Expr
+				ast.Inspect(parseNode.Decl.Body, func(m ast.Node) bool {
+					if as, ok := m.(*ast.AssignStmt); ok && len(as.Lhs) == len(as.Rhs) {
+						for i, l := range as.Lhs {
+							if objOf(info, l) == o {
+								defs = append(defs, as.Rhs[i])
+							}
+						}
+					}
+					return true
+				})
+				if len(defs) == 1 {
+					src = ast.Unparen(defs[0])
+				}
+			}
+		}
+		if sel, isSel := src.(*ast.SelectorExpr); isSel {
+			// a list kept in a field: shared with the recursive calls when the function assigns it
+			if v, ok := info.Uses[sel.Sel].(*types.Var); ok && v.IsField() {
+				assigned, recurses := false, false
+				ast.Inspect(parseNode.Decl.Body, func(m ast.Node) bool {
+					if as, ok := m.(*ast.AssignStmt); ok {
+						for _, l := range as.Lhs {
+							if ls, ok := ast.Unparen(l).(*ast.SelectorExpr); ok && info.Uses[ls.Sel] == v {
+								assigned = true
+							}
+						}
+					}
+					return true
+				})
+				ast.Inspect(rs.Body, func(m ast.Node) bool {
+					if cl, ok := m.(*ast.CallExpr); ok && Callee(info, cl) == parseNode.Obj {
+						recurses = true
+					}
+					return true
+				})
+				if assigned && recurses {
+					c.Bad("C19-R3", "parseNode:the list being walked is private to the invocation", rs.Pos(), "the loop ranges over field "+v.Name()+", which parseNode itself assigns, and calls parseNode from its body: the recursive call overwrites the list the outer loop is still walking, so keys after a nested mapping are skipped and the rules below them are lost")
+				}
+			}
+		}
+		if cl, ok := src.(*ast.CallExpr); ok && len(cl.Args) == 1 && isObj(info, cl.Args[0], nodeP) {
 			switch {
 			case isCallTo(info, cl, "internal/parser.mappingNodes"):
 				loops = append(loops, loopInfo{rs, "mappingNodes"})
